@@ -45,7 +45,8 @@ UnsVals == {"0", "1", "9223372036854775808", "18446744073709551615"}
 FloatVals == {[t |-> "float", v |-> "0", e |-> 0], [t |-> "float", v |-> "1", e |-> -1], [t |-> "float", v |-> "-1", e |-> -1],
               [t |-> "float", v |-> "1", e |-> 1], [t |-> "float", v |-> "-1", e |-> 2],            \* 0, 0.5, -0.5, 2, -4
               [t |-> "float", v |-> "1", e |-> 53], [t |-> "float", v |-> "1", e |-> 63]}          \* 2^53, 2^63
-StrVals == {"a", "b", "2000-01-01", "2000-01-01T00:00:00Z"}
+\* two strings that LOOK like time literals but are none (month 13; trailing text): equality falls back to the strings
+StrVals == {"a", "b", "2000-01-01", "2000-01-01T00:00:00Z", "2000-13-01", "2000-01-05 idle"}
 ClassVals(c) == CASE c = "num" -> {[t |-> "int", v |-> x] : x \in IntVals} \cup {[t |-> "uns", v |-> x] : x \in UnsVals} \cup FloatVals
                   [] c = "bool" -> {BoolV(TRUE), BoolV(FALSE)}
                   [] c = "str" -> {StrV(x) : x \in StrVals}
